@@ -88,7 +88,10 @@ theorem EigOK.apply_eq_adjoint {S : Set 𝕜} {A : Op 𝕜} {e : EigData 𝕜} (
   rw [MatF.toMatrix_mmul, MatF.toMatrix_mmul, toMatrix_diagM_unary, MatF.toMatrix_congr (h.adj rfl),
     MatF.toMatrix_adjoint]
 
-/-- **contract of a Krylov operator** (`LanczosUnary` / `ArnoldiUnary`) whose matrix is `K` -/
+/-- **contract of a Krylov operator** (`LanczosUnary` / `ArnoldiUnary`) whose matrix is `K`.  For Lanczos it is DERIVED
+from the loop model of C14 (`Unary.krylovOK_of_lanczos`, Lemmas/UnaryKrylov.lean: `K` = the model `lanczosK`, remaining
+contract `EighContract`) and witnessed on `SelfAdjoint([[2,1],[1,2]])` (`exS_krylov_soundE`); for Arnoldi it stays a
+contract whose factorisation part is `KrylovCompose.arnoldi_unary_exact` under C15's clauses. -/
 def KrylovOK (S : Set 𝕜) (g : 𝕜 → 𝕜) (A : Op 𝕜) (K : MatF 𝕜) : Prop :=
   A.cols = A.rows ∧ DiagonalisableOn S (mat A) ∧
   ∀ i : Fin A.rows, ∃ (m : ℕ) (Q : Matrix (Fin A.rows) (Fin m) 𝕜) (T P Pi : Matrix (Fin m) (Fin m) 𝕜)
